@@ -430,7 +430,13 @@ def run(ctx):
         if len(reported) >= 5:
             break
     # the known collision with `self` on the real rule (a 9.8 MB method body drawing 4.73 million names)
-    witness = witness_job.result()
+    witness_failure = None
+    try:
+        witness = witness_job.result()
+    except C.CheckBroken as exc:
+        # the witness harness itself went wrong (e.g. the real rule overflowed its stack on the 9.8 MB source): that
+        # is behaviour of the code under test, reported below if nothing more concrete was found
+        witness, witness_failure = "", str(exc)
     pool.shutdown()
     captured = [l for l in witness.splitlines() if l.startswith("CAPTURED")]
     ctx.stream("rename_variables on a method that draws every name before `self`", 1, 1 if captured else 0,
@@ -445,6 +451,10 @@ def run(ctx):
         ctx.violation("darklua failed on a valid program or wrote text that does not parse: " + t[:300],
                       {"rules": job[0], "generator": job[1], "source": job[2], "stage": stage},
                       key=classify(job, "error-" + stage))
+    if witness_failure is not None and not [v for v in ctx.violations if v[2]]:
+        ctx.violation("rename_variables on the 4.73-million-name witness no longer completes: " + witness_failure[-400:],
+                      {"how": "dl-c09 self-witness --names 4730700", "failure": witness_failure[-1500:]},
+                      found_input=False)
     if traversal_bad and not ctx.violations:
         job = index[traversal_bad[0]]
         ctx.violation("correspondence broken: the rule's output tree differs from Model/RenameTraversal.v (visiting order or "
